@@ -63,6 +63,10 @@ class Report:
             if r.get("error"):
                 self.errors.append({"case": r["case"], "error": r["error"][-1500:]})
             self.paths += r.get("paths", 0)
+            if r.get("attempts"):
+                # a budget left this case open on its first run; it was run again with larger budgets (pyvc/harness.run_cases)
+                self.retried = getattr(self, "retried", []) + [{"case": r["case"], "attempts": r["attempts"], "open_after_first_attempt": r.get("first_attempt_open"),
+                                                              "open_after_last_attempt": sum(1 for o in r["obligations"] if o["status"] == "undecided")}]
             self.slowest = sorted(getattr(self, "slowest", []) + [(round(r.get("wall_s", 0), 1), r["case"])], reverse=True)[:5]
             self.solver_s += r.get("solver_s", 0)
             for fl in r.get("flags", []):
@@ -160,6 +164,9 @@ class Report:
             json.dump(ev, fh, indent=1, default=str)
         for ln in out_lines:
             print(ln)
+        for u in self.undecided[:10]:
+            # an open obligation is neither a proof nor a violation: name it, so that the log says what was left open
+            print(f"UNDECIDED: property={self.prop} obligation={u['obligation']} ({str(u.get('info'))[:200]})")
         status = "VIOLATED" if violations else "held"
         print(
             f"{self.prop} [{self.tier}] {status}: obligations={self.obligations} discharged={self.discharged} "
@@ -214,6 +221,7 @@ class Report:
             "samples": self.samples[:12] or [{"note": "no sample recorded"}],
             "undecided_samples": self.undecided[:8],
             "slowest_cases_s": getattr(self, "slowest", []),
+            "cases_given_a_further_attempt": getattr(self, "retried", []),
             "flags": sorted(self.flags),
             "explanation": self.extra.get("explanation", ""),
             "exhaustive": False,
